@@ -78,6 +78,17 @@ CHECKS["C15"] = dict(
    note="Trusted: vf/sem.py, numpy matrix_rank. Block-smooth functions on real block-smooth members are covered in C03 / C04.",
    design="DESIGN.md §3 C15")
 
+CHECKS["C07"] = dict(
+   technique="property-based testing (Hypothesis): generated operation sequences on leaf and composite functions (stateful, model-based: the model is the denotation of every recorded sample read through an independent evaluator), invariants after every operation",
+   text="Generated call sequences (oracle / gradient / value / __call__ / stationary_point / fixed_point / proximal_step) on 2-4 leaf functions and composites with zero, cancelling, nested and scaled weights, at leaf, combination and equal-decomposition points; after every call: one value per point, one gradient per point for differentiable functions, every composite sample is the weighted sum of term samples recorded at that point, stationary samples have zero gradient and are in both lists, the returned objects are the recorded ones.",
+   note="Trusted: vf/sem.py. The identically-zero composite (every weight zero) is excluded as degenerate and counted.",
+   design="DESIGN.md §3 C07")
+CHECKS["C08"] = dict(
+   technique="property-based testing (Hypothesis): for each primitive step, generated states / options compared with a reference delta written from the step's docstring (differential), plus real runs of the operation on real functions (quadratics, l1, boxes, quadratic mirror maps) checked against everything the step recorded",
+   text="Generated-input search over the 8 steps, their options, step sizes, accuracies, leaf / combination starting points and leaf / composite functions: returned points obey the documented relation, exactly the documented samples and side constraints (up to positive scaling) are recorded on the right function and nothing else; real closed-form runs (prox, projection, span search, perturbed gradient at the exact accuracy, epsilon-subgradient, linear minimisation over a box, Bregman steps) satisfy the recorded samples and constraints, and data exactly at the documented accuracy sit on the boundary of the recorded constraint.",
+   note="Trusted: the reference deltas in vf/checks/c08.py, vf/sem.py, vf/members.py. Distribution of a composite's sample over its terms is C07.",
+   design="DESIGN.md §3 C08")
+
 NOT_APPLICABLE = []
 
 def main():
